@@ -126,6 +126,7 @@ typedef struct {
    int nseg; int seg_ms[MAXSEG]; int seg_active[MAXSEG] /* 0 gap, 1 speech, 2 faint noise (stereo: anti-phase, R = -L) */;
    int seg_cx[MAXSEG] /* OPUS_SET_COMPLEXITY at the first call of the segment; 0 = leave */;
    uint64_t sigseed;
+   int nan_off_ms;  /* seg kind 3: position of the NaN sample inside every packet */
    char scen[160];   /* "" for generated runs, else "<family> <index> <description>" */
 } runcfg;
 
@@ -230,12 +231,12 @@ static int scen_cfg(const char *family, int idx, runcfg *c)
    }
    if (!strcmp(family, "nan-pattern")) {
       /* fixed configuration; after 1 s of speech every packet is faint noise with ONE NaN sample 10 ms into it */
-      if (idx != 0) return 0;
-      c->fs = 24000; c->ch = 1; c->app = OPUS_APPLICATION_VOIP; c->cx = 10; c->vbr = 1; c->ubr = 20000; c->sigtype = OPUS_SIGNAL_VOICE;
+      if (idx < 0 || idx > 10) return 0;    /* NaN 5..55 ms into the packet: which analysis windows it invalidates */
+      c->fs = 24000; c->ch = 1; c->app = OPUS_APPLICATION_VOIP; c->cx = 10; c->vbr = 1; c->cvbr = 1; c->ubr = 20000; c->sigtype = OPUS_SIGNAL_VOICE;
       c->q = 24; c->nseg = 2;
-      c->seg_ms[0] = 1020; c->seg_active[0] = 1;
-      c->seg_ms[1] = 6000; c->seg_active[1] = 3;
-      snprintf(c->scen, sizeof(c->scen), "nan-pattern 0 fs=24000 ch=1 voip cx=10 20000b/s q=24 speech1020,faint+NaN@10ms 6000");
+      c->seg_ms[0] = 1020; c->seg_active[0] = 1; c->nan_off_ms = 5 + 5 * idx;
+      c->seg_ms[1] = 16000; c->seg_active[1] = 3;
+      snprintf(c->scen, sizeof(c->scen), "nan-pattern %d fs=24000 ch=1 voip cx=10 20000b/s q=24 speech1020,faint+NaN@%dms 16000", idx, 5 + 5 * idx);
       return 1;
    }
    if (!strcmp(family, "silk-bust")) {
@@ -540,7 +541,7 @@ static void do_run(uint64_t subseed, int tier_long, const runcfg *preset)
          if (!active) x = c.noise_gap ? (float)(0.0002 * sig_noise(&sg)) : 0.f;
          if (active == 3) {   /* faint noise with one NaN sample 10 ms into every packet */
             x = (float)(0.0001 * sig_noise(&sg));
-            if (n == c.fs / 100) x = NAN;
+            if (n == c.fs / 1000 * c.nan_off_ms) x = NAN;
             for (k = 0; k < c.ch; k++) pcm[n * c.ch + k] = x;
             allzero = 0;
             if (in_all) in_all[(long)i * fsz + n] = 0;
@@ -699,7 +700,8 @@ static void do_run(uint64_t subseed, int tier_long, const runcfg *preset)
             /* in-DTX query true on every DTX packet */
             if (cr->dtx_on && !cr->indtx) witness("in_dtx_on_dtx_packets", subseed, i, "len=%d but OPUS_GET_IN_DTX=0", cr->len);
             /* resume: a call with an active coded frame is coded normally */
-            if (cr->any_active) witness("dtx_resume", subseed, i, "encoder's own activity decision was 1 in a coded frame, yet len=%d", cr->len);
+            /* the decision that counts is the one of the detector in charge of the call (silk_mode.useDTX) */
+            if (cr->any_active && !cr->post[2]) witness("dtx_resume", subseed, i, "generalised detector in charge and its activity decision was 1 in a coded frame, yet len=%d", cr->len);
             if (cr->post[2] && cr->vad_active) witness("dtx_resume", subseed, i, "SILK VAD flag 1 in the packet, yet len=%d", cr->len);
          }
          if (cr->any_active && !cr->lowb) S.resume_checked++;
